@@ -234,7 +234,7 @@ def trace_selftest():
 
 WRITE_CHECKS = {"enc-err", "write-leaves-fresh", "seq-enc-err", "seq-write-fresh", "walk-write-err", "walk-write-bytes",
                 "walk-write-state", "walk-write-panic"}
-READ_CHECKS = {"rt-dec-err", "rt-value", "dec-err", "dec-value", "dec-consumed", "dec-next", "read-leaves-fresh", "seq-dec-err", "seq-dec", "seq-read-fresh",
+READ_CHECKS = {"rt-dec-err", "rt-value", "dec-exact-err", "dec-exact", "dec-err", "dec-value", "dec-consumed", "dec-next", "read-leaves-fresh", "seq-dec-err", "seq-dec", "seq-read-fresh",
                "walk-read", "walk-read-consumed", "walk-read-state", "walk-read-panic"}
 BYTES_CHECKS = {"enc-bytes", "seq-enc-bytes"}
 LEN_CHECKS = {"len", "seq-len", "len-leaves-fresh", "walk-len", "walk-len-state", "walk-len-panic"}
